@@ -103,15 +103,23 @@ class WSGIWrapper:
             ]
             response_started = True
 
+        def send_start() -> None:
+            # PEP 3333 allows start_response to be called lazily, up
+            # until the first (non-empty) chunk is produced.
+            if not response_started:
+                raise RuntimeError("WSGI app did not call start_response")
+            send({"type": "http.response.start", "status": status_code, "headers": headers})
+
         response_body = self.app(environ, start_response)
-
-        if not response_started:
-            raise RuntimeError("WSGI app did not call start_response")
-
-        send({"type": "http.response.start", "status": status_code, "headers": headers})
+        start_sent = False
         try:
             for output in response_body:
+                if not start_sent:
+                    send_start()
+                    start_sent = True
                 send({"type": "http.response.body", "body": output, "more_body": True})
+            if not start_sent:
+                send_start()
         finally:
             if hasattr(response_body, "close"):
                 response_body.close()
